@@ -81,7 +81,7 @@ def family(n, max_inputs, kinds, at_most_nonplain=None, tier_depth=3, chain_only
             v = Variant("v0", stmts, pools=pools)
             files = {}
             ops = standard_ops([v], files, js=(1, 2), touch=("restat" in ks), fault_modes=({"code": 1, "touch": True},),
-                               max_fault_stmts=n)
+                               max_fault_stmts=n, edits_during=False)
             build_idx = next(i for i, o in enumerate(ops) if o["op"] == "ninja")
             count += 1
             desc = "%s(%d;%d)#%d %s" % (name, n, max_inputs, count,
